@@ -256,13 +256,28 @@ def run(m: Model, r: Report, tier: str) -> None:
         raise AnalysisError(f"{gv.qualname}: descent loop / early default return not found")
     conds_e = [(t, p_) for t, p_ in _pc18(gv.node, early[0])]
     atoms_e = sorted({x.id for t, _ in conds_e for x in ast.walk(t) if isinstance(x, ast.Name)})
-    bad_e = _tt18(conds_e, {a_: [None, {"k": 1}] for a_ in atoms_e}, lambda a: all(v is None for v in a.values())) if len(atoms_e) == 1 else ["?"]
-    r.check(not bad_e, "R7", f"{gv.qualname}#descent", f"the default is returned early on {bad_e}: it must be returned exactly when the current table is missing (None)", loc=gv.loc)
+    atoms_e = [a_ for a_ in atoms_e if a_ not in ("isinstance", "dict", "len", "type")]
+    looked0 = {n.targets[0].id for n in ast.walk(gv_loops[0]) if isinstance(n, ast.Assign) and isinstance(n.targets[0], ast.Name) and isinstance(n.value, ast.Call)
+               and isinstance(n.value.func, ast.Attribute) and n.value.func.attr == "get"}
+    bad_e = None
+    if len(atoms_e) == 1:
+        try:
+            if atoms_e[0] in looked0:
+                # the test is made on the entry just looked up: the default is returned exactly when that entry is no table
+                bad_e = _tt18(conds_e, {atoms_e[0]: [None, 0, "x", {"k": 1}]}, lambda a: not isinstance(a[atoms_e[0]], dict))
+            else:
+                bad_e = _tt18(conds_e, {atoms_e[0]: [None, {"k": 1}]}, lambda a: a[atoms_e[0]] is None)
+        except AnalysisError:
+            bad_e = None
+    r.check3(None if bad_e is None else not bad_e, "R7", f"{gv.qualname}#descent", f"the default is returned early on {bad_e}: it must be returned exactly when the current table is missing (None)", loc=gv.loc)
     # the table variable (the one the early return tests) after a step: the looked-up value if that is a dict, else None
     from sa.util import choice_table as _ct18
     looked = sorted({n.targets[0].id for n in ast.walk(gv_loops[0]) if isinstance(n, ast.Assign) and isinstance(n.targets[0], ast.Name) and isinstance(n.value, ast.Call)
                      and isinstance(n.value.func, ast.Attribute) and n.value.func.attr == "get"})
-    if len(atoms_e) != 1 or len(looked) != 1:
+    if len(atoms_e) == 1 and len(looked) == 1 and atoms_e[0] == looked[0]:
+        # the looked-up entry itself is tested and becomes the next table (`if not isinstance(entry, dict): return default; table = entry`): decided by #descent
+        r.ok("R7", f"{gv.qualname}#descent-step", "the entry is tested before it becomes the next table")
+    elif len(atoms_e) != 1 or len(looked) != 1:
         r.unrecognised("R7", f"{gv.qualname}#descent-step", f"table variable {atoms_e} / looked-up value {looked}", gv.loc)
     else:
         tv_, lv_ = atoms_e[0], looked[0]
